@@ -640,8 +640,13 @@ class UnitsContainer(Mapping[str, Scalar]):
             raise TypeError(err.format(type(other)))
 
         new = self.copy()
-        for key, value in new._d.items():
-            new._d[key] *= other
+        for key, value in self._d.items():
+            newval = value * other
+            if newval == 0:
+                # u ** 0 is dimensionless: no zero-exponent entry may survive
+                del new._d[key]
+            else:
+                new._d[key] = newval
         new._hash = None
         return new
 
@@ -866,6 +871,8 @@ class ParserHelper(UnitsContainer):
         d = self._d.copy()
         for key in self._d:
             d[key] *= other
+            if d[key] == 0:
+                del d[key]
         return self.__class__(self.scale**other, d, non_int_type=self._non_int_type)
 
     def __truediv__(self, other):
